@@ -5,7 +5,6 @@ import (
 	"go/constant"
 	"go/token"
 	"go/types"
-	"strings"
 
 	"golang.org/x/tools/go/packages"
 	"golang.org/x/tools/go/ssa"
@@ -251,49 +250,15 @@ func localFreeExpr(p *packages.Package, e ast.Expr) string {
 	if len(repl) == 0 {
 		return types.ExprString(e)
 	}
-	// print with replacements: substitute temporarily in a copy of the text
-	var sb strings.Builder
-	var walk func(n ast.Expr)
-	walk = func(n ast.Expr) {
-		switch x := n.(type) {
-		case *ast.Ident:
-			if s, ok := repl[x]; ok {
-				sb.WriteString(s)
-			} else {
-				sb.WriteString(x.Name)
-			}
-		case *ast.SelectorExpr:
-			walk(x.X)
-			sb.WriteString("." + x.Sel.Name)
-		case *ast.CallExpr:
-			walk(x.Fun)
-			sb.WriteString("(")
-			for i, a := range x.Args {
-				if i > 0 {
-					sb.WriteString(", ")
-				}
-				walk(a)
-			}
-			sb.WriteString(")")
-		case *ast.IndexExpr:
-			walk(x.X)
-			sb.WriteString("[")
-			walk(x.Index)
-			sb.WriteString("]")
-		case *ast.ParenExpr:
-			sb.WriteString("(")
-			walk(x.X)
-			sb.WriteString(")")
-		case *ast.StarExpr:
-			sb.WriteString("*")
-			walk(x.X)
-		case *ast.UnaryExpr:
-			sb.WriteString(x.Op.String())
-			walk(x.X)
-		default:
-			sb.WriteString(types.ExprString(n))
-		}
+	// print with the identifiers temporarily renamed (every expression form is covered)
+	old := map[*ast.Ident]string{}
+	for id, r := range repl {
+		old[id] = id.Name
+		id.Name = r
 	}
-	walk(e)
-	return sb.String()
+	out := types.ExprString(e)
+	for id, n := range old {
+		id.Name = n
+	}
+	return out
 }
